@@ -36,6 +36,16 @@ Proof.
   - inversion H; subst. destruct (IH c H2 ltac:(lia)) as [t [-> ->]]. exists t. split; reflexivity.
 Qed.
 
+Lemma fits_spec n c : 0 <= n -> fits n c = (blen c <=? n).
+Proof.
+  intros Hn. unfold fits, bdrop, blen. destruct (skipn (Z.to_nat n) c) eqn:E.
+  - symmetry. apply Z.leb_le. destruct (le_lt_dec (length c) (Z.to_nat n)) as [H|H]; [lia|].
+    exfalso. assert (Hl : length (skipn (Z.to_nat n) c) = (length c - Z.to_nat n)%nat) by apply skipn_length.
+    rewrite E in Hl. cbn in Hl. lia.
+  - symmetry. apply Z.leb_gt. destruct (le_lt_dec (length c) (Z.to_nat n)) as [H|H]; [|lia].
+    rewrite skipn_all2 in E by lia. discriminate.
+Qed.
+
 (* ---- one read ---- *)
 Lemma read_spec n r bs st r' : 1 <= n -> read n r = (bs, st, r') ->
   contents r = bs ++ contents r' /\ blen bs <= n /\ st <> RUEOF /\
@@ -46,14 +56,14 @@ Proof.
   destruct cs as [|c cs].
   - destruct f as [|d|].
     + intros H; inversion H; subst. cbn. repeat split; try congruence; auto. lia.
-    + destruct (Z.leb_spec (blen d) n) as [Hle|Hgt]; intros H; inversion H; subst; cbn [chunks final concat fin_data app].
+    + rewrite fits_spec by lia; destruct (Z.leb_spec (blen d) n) as [Hle|Hgt]; intros H; inversion H; subst; cbn [chunks final concat fin_data app].
       * repeat split; try congruence; auto. rewrite app_nil_r. reflexivity.
       * assert (Hb : blen (btake n d) = n) by (apply blen_btake; lia).
         repeat split; try congruence; try lia.
         -- rewrite btake_bdrop. reflexivity.
         -- intros _. cbn [length]. unfold bdrop. rewrite skipn_length. unfold blen in Hgt. lia.
     + intros H; inversion H; subst. cbn. repeat split; try congruence; auto. lia.
-  - destruct (Z.leb_spec (blen c) n) as [Hle|Hgt]; intros H; inversion H; subst; cbn [chunks final concat].
+  - rewrite fits_spec by lia; destruct (Z.leb_spec (blen c) n) as [Hle|Hgt]; intros H; inversion H; subst; cbn [chunks final concat].
     + repeat split; try congruence; auto.
       * rewrite <- app_assoc. reflexivity.
       * intros _. cbn [length]. rewrite !app_length. lia.
@@ -61,6 +71,21 @@ Proof.
       repeat split; try congruence; try lia.
       * rewrite <- !app_assoc. rewrite (app_assoc (btake n c)), btake_bdrop. reflexivity.
       * intros _. cbn [length]. rewrite !app_length. unfold bdrop. rewrite skipn_length. unfold blen in Hgt. lia.
+Qed.
+
+Lemma read_empty_ok n r r' : 1 <= n -> read n r = ([], ROk, r') ->
+  (length (chunks r') < length (chunks r))%nat /\ contents r' = contents r.
+Proof.
+  intros Hn. unfold read, contents. destruct r as [cs f]. cbn [chunks final].
+  destruct cs as [|c cs].
+  - destruct f as [|d|]; try discriminate.
+    rewrite fits_spec by lia; destruct (Z.leb_spec (blen d) n) as [Hle|Hgt]; [discriminate|]. intros H; inversion H.
+    exfalso. assert (Hb : blen (btake n d) = n) by (apply blen_btake; lia).
+    match goal with E : btake n d = [] |- _ => rewrite E, blen_nil in Hb end. lia.
+  - rewrite fits_spec by lia; destruct (Z.leb_spec (blen c) n) as [Hle|Hgt]; intros H; inversion H; subst; cbn [chunks final length concat app].
+    + split; [lia|reflexivity].
+    + exfalso. assert (Hb : blen (btake n c) = n) by (apply blen_btake; lia).
+      match goal with E : btake n c = [] |- _ => rewrite E, blen_nil in Hb end. lia.
 Qed.
 
 (* ---- ReadFull ---- *)
@@ -144,7 +169,7 @@ Proof.
 Qed.
 
 (* ---- ReadByte ---- *)
-Lemma read_byte_aux_ok fuel : forall r x b, contents r = x :: b -> (mu r < fuel)%nat ->
+Lemma read_byte_aux_ok fuel : forall r x b, contents r = x :: b -> (length (chunks r) < fuel)%nat ->
   exists r', read_byte_aux fuel r = (Some x, ROk, r') /\ contents r' = b /\ (plain r = true -> plain r' = true).
 Proof.
   induction fuel as [|fuel IH]; intros r x b Hc Hf; [lia|].
@@ -152,7 +177,8 @@ Proof.
   destruct (read_spec 1 _ _ _ _ ltac:(lia) R) as [Hc1 [Hb [Hnu [Hmu [Hnok Hpl]]]]].
   destruct bs as [|y bs].
   - cbn [app] in Hc1. destruct st.
-    + destruct (IH r1 x b) as [r' [E [Hc' Hp']]]; [congruence|specialize (Hmu eq_refl); lia|].
+    + destruct (read_empty_ok 1 _ _ ltac:(lia) R) as [Hlt _].
+      destruct (IH r1 x b) as [r' [E [Hc' Hp']]]; [congruence|lia|].
       exists r'. split; [exact E|]. split; [exact Hc'|]. intros Hp. apply Hp', Hpl, Hp.
     + rewrite (Hnok ltac:(congruence)) in Hc1. congruence.
     + congruence.
@@ -166,7 +192,7 @@ Theorem read_byte_ok r x b : contents r = x :: b ->
   exists r', read_byte r = (Some x, ROk, r') /\ contents r' = b /\ (plain r = true -> plain r' = true).
 Proof. intros Hc. apply read_byte_aux_ok; [exact Hc|lia]. Qed.
 
-Lemma read_byte_aux_end fuel : forall r, contents r = [] -> (mu r < fuel)%nat ->
+Lemma read_byte_aux_end fuel : forall r, contents r = [] -> (length (chunks r) < fuel)%nat ->
   exists st r', read_byte_aux fuel r = (None, st, r') /\ st <> ROk /\ contents r' = [].
 Proof.
   induction fuel as [|fuel IH]; intros r Hc Hf; [lia|].
@@ -174,7 +200,7 @@ Proof.
   destruct (read_spec 1 _ _ _ _ ltac:(lia) R) as [Hc1 [Hb [Hnu [Hmu [Hnok Hpl]]]]].
   rewrite Hc in Hc1. symmetry in Hc1. apply app_eq_nil in Hc1 as [-> Hc1].
   destruct st.
-  - apply IH; [exact Hc1|specialize (Hmu eq_refl); lia].
+  - destruct (read_empty_ok 1 _ _ ltac:(lia) R) as [Hlt _]. apply IH; [exact Hc1|lia].
   - exists REOF, r1. repeat split; auto; congruence.
   - congruence.
   - exists RErr, r1. repeat split; auto; congruence.
@@ -195,7 +221,7 @@ Proof.
   destruct (read_spec 4096 _ _ _ _ ltac:(lia) R) as [Hc1 [Hb [Hnu [Hmu [Hnok Hpl]]]]].
   assert (Hfin : final r <> FErr -> final r1 <> FErr /\ st <> RErr).
   { unfold read in R. destruct r as [cs f]; cbn [chunks final] in *. intros Hne.
-    destruct cs as [|c cs]; [destruct f; try congruence|]; try (destruct (Z.leb _ _)); inversion R; subst; cbn;
+    destruct cs as [|c cs]; [destruct f; try congruence|]; try (destruct (fits _ _)); inversion R; subst; cbn;
       split; congruence. }
   destruct st.
   - destruct (IH (acc ++ bs) r1) as [st' [r' [E [Hc' Hst]]]]; [specialize (Hmu eq_refl); lia|].
@@ -225,8 +251,8 @@ Proof.
     split; [exact Hc1|]. unfold mu in *. rewrite Hc1. cbn [length app]. unfold read in R.
     destruct r as [cs f]; cbn [chunks final] in *. unfold contents in *; cbn [chunks final] in *.
     destruct cs as [|c cs].
-    + destruct f; try discriminate. destruct (Z.leb _ _); inversion R; subst; cbn; lia.
-    + destruct (Z.leb _ _); inversion R; subst; cbn [chunks length]; lia.
+    + destruct f; try discriminate. destruct (fits _ _); inversion R; subst; cbn; lia.
+    + destruct (fits _ _); inversion R; subst; cbn [chunks length]; lia.
 Qed.
 
 Theorem read_byte_inv r x st r' : read_byte r = (Some x, st, r') ->
